@@ -404,7 +404,7 @@ func Exec[P any](s *Suite, kind string, plan P, exec func(P) (Outcome, error)) *
 			})
 			close(done)
 		}()
-		hang := time.After(s.HangLimit)
+		hang := After(s.HangLimit) // on the active clock: a paused or starved process is not a hung case
 	wait:
 		select {
 		case <-done:
@@ -413,7 +413,7 @@ func Exec[P any](s *Suite, kind string, plan P, exec func(P) (Outcome, error)) *
 			select {
 			case <-done:
 				out, err = bOut, bErr
-			case <-time.After(5 * time.Second):
+			case <-After(5 * time.Second):
 				// the case demonstrated a violation and then wedged: report the violation
 				establishedMu.Lock()
 				err = established
